@@ -67,7 +67,7 @@ _evidence = {'cases_with_ties': 0, 'ambiguous_modes': 0, 'bins_with_means_judged
 def config(tier):
     if tier == 'quick':
         return dict(shards=4, examples=375, numba_threads=16, boundscheck=BOUNDSCHECK, shrink_calls=150, soft_s=100, env={'OMP_WAIT_POLICY': 'passive'})
-    return dict(shards=8, examples=6000, numba_threads=16, boundscheck=BOUNDSCHECK, shrink_calls=300, soft_s=800, env={'OMP_WAIT_POLICY': 'passive'})
+    return dict(shards=8, examples=12000, numba_threads=16, boundscheck=BOUNDSCHECK, shrink_calls=300, soft_s=800, env={'OMP_WAIT_POLICY': 'passive'})
 
 
 # ----------------------------------------------------------------------------------------------
